@@ -56,6 +56,7 @@ def run(index, rep):
     rep.guard(unitlit, index, rep)
     rep.guard(state8, index, rep)
     rep.guard(ramp_area, index, rep)
+    rep.guard(horizon_forwarded, index, rep)
     # feed and biofuel demand are supply-side series of this property too: use every month until the configured shut-off, nothing afterwards,
     # each from its own delay (the rule is C03's; its obligations are filed here under C08.SHUT as well)
     from .c03 import shut as _shut
@@ -139,6 +140,61 @@ def run_method(index, rel, clsname, method, self_attrs, args, kwargs=None, decis
     return results, fn
 
 
+# ------------------------------------------------------------------------------------------------ horizon
+
+HORIZON_NAMES = ("nmonths", "n_months", "number_of_months", "num_months")
+
+
+def horizon_forwarded(index, rep):
+    """every supply series has one entry per month of the horizon asked for: a routine that is handed the horizon and calls a routine that
+    takes the horizon too (with a default to fall back on) hands it on - leaving it out silently builds that part for the default horizon"""
+    rule = "C08.HORIZON"
+    rels = [r_ for r_ in index.py_files("src") if r_.startswith(("src/scenarios/", "src/optimizer/", "src/food_system/"))]
+    defs = {}
+    for rel in rels:
+        for fn in [n for n in ast.walk(index.module(rel)) if isinstance(n, ast.FunctionDef)]:
+            defs.setdefault(fn.name, []).append((rel, fn))
+    n_takers, n_sites, bad = 0, 0, []
+    for name, lst in defs.items():
+        for rel, g in lst:
+            a = g.args
+            dflt = [x.arg for x in a.args][len(a.args) - len(a.defaults):] + [x.arg for x, d in zip(a.kwonlyargs, a.kw_defaults) if d is not None]
+            if any(p_.lower() in HORIZON_NAMES for p_ in dflt):
+                n_takers += 1
+    for rel in rels:
+        for fn in [n for n in ast.walk(index.module(rel)) if isinstance(n, ast.FunctionDef)]:
+            have = {a_.arg for a_ in fn.args.args + fn.args.kwonlyargs if a_.arg.lower() in HORIZON_NAMES}
+            if not have:
+                continue
+            for c in [n for n in walk_no_nested(fn) if isinstance(n, ast.Call)]:
+                nm = c.func.attr if isinstance(c.func, ast.Attribute) else (c.func.id if isinstance(c.func, ast.Name) else None)
+                if nm not in defs or len(defs[nm]) != 1:
+                    continue
+                g = defs[nm][0][1]
+                a = g.args
+                params = [x.arg for x in a.args]
+                dflt = params[len(params) - len(a.defaults):] + [x.arg for x, d in zip(a.kwonlyargs, a.kw_defaults) if d is not None]
+                want = [p_ for p_ in dflt if p_.lower() in HORIZON_NAMES]
+                if not want or any(k.arg is None for k in c.keywords) or any(isinstance(x, ast.Starred) for x in c.args):
+                    continue
+                skip = 1 if params and params[0] in ("self", "cls") and isinstance(c.func, ast.Attribute) else 0
+                passed = set(params[skip:skip + len(c.args)]) | {k.arg for k in c.keywords if k.arg}
+                n_sites += 1
+                for p_ in want:
+                    if p_ not in passed:
+                        bad.append((rel, fn, c, nm, p_))
+    for rel, fn, c, nm, p_ in bad:
+        rep.violation(rule, f"{fn.name} -> {nm}: {p_} not handed on",
+                      f"{fn.name} is given the horizon ({', '.join(sorted(a_.arg for a_ in fn.args.args if a_.arg.lower() in HORIZON_NAMES))}) but calls "
+                      f"{nm}() without it, so {nm} falls back on its default horizon: the series built there have the default number of months whatever "
+                      "horizon the run asked for", loc=loc(rel, c))
+    rep.note_analysed("routines_taking_a_default_horizon", n_takers)
+    rep.note_analysed("calls_from_a_routine_that_has_the_horizon_to_one_that_takes_it", n_sites)
+    if not bad:
+        rep.ok(rule, "every routine that is given the horizon hands it on to the routines that take one",
+               detail=f"{n_takers} routines take a horizon with a default; {n_sites} call sites from a routine that has the horizon")
+
+
 # ------------------------------------------------------------------------------------------------ calendar
 
 
@@ -154,8 +210,17 @@ def start_month(index, rep):
         raise AnalysisError("Parameters.__init__: SIMULATION_STARTING_MONTH_NUM is not a constant")
     start = nums.pop()
     rep.check(start == 5, rule, "simulation starts in May", f"the simulation start month is {start}, the documented start is May (5)", loc=loc(PARAMS, fn))
-    io = index.func(PARAMS, "Parameters.init_outdoor_crops")
-    ok = any(norm_src(s) == "constants_inputs['STARTING_MONTH_NUM'] = self.SIMULATION_STARTING_MONTH_NUM" for s in io.body)
+    # read on the first-round computation with its helpers merged in: wherever the hand-over is written, the input table must carry the
+    # simulation start month before the crop model is built from it
+    from .core import Inliner as _InlCal
+    io = index.flat_func(PARAMS, "Parameters.compute_parameters_first_round", depth=3)
+    inl_io = _InlCal(io)
+    stores = [t_ for t_, v_ in inl_io.stores if isinstance(t_, ast.Subscript) and str_const(t_.slice) == "STARTING_MONTH_NUM"
+              and inl_io.src(v_) == "self.SIMULATION_STARTING_MONTH_NUM"]
+    all_stores = [t_ for t_, v_ in inl_io.stores if isinstance(t_, ast.Subscript) and str_const(t_.slice) == "STARTING_MONTH_NUM"]
+    built = [c_ for c_ in walk_no_nested(io) if isinstance(c_, ast.Call) and norm_src(c_.func) == "OutdoorCrops"]
+    ok = len(stores) == 1 and len(all_stores) == 1 and bool(built) and all(
+        stores[0].lineno < c_.lineno and norm_src(stores[0].value) in {norm_src(a_) for a_ in list(c_.args) + [k_.value for k_ in c_.keywords]} for c_ in built)
     rep.check(ok, rule, "start month handed to the crop model", "the crop model does not receive the simulation start month", loc=loc(PARAMS, io))
     return start
 
@@ -822,7 +887,7 @@ def stock(index, rep, start):
         ok = isinstance(lst, PList) and len(lst.items) == 12 and all(
             isinstance(v, (Rat, Path)) and it.to_rat(v) == K_(("c", "END_OF_MONTH_STOCKS", nm)) for v, nm in zip(lst.items, names))
     rep.check(ok, rule, "stock list index k = calendar month k+1", "the end-of-month stock list is not filled January..December in order", loc=loc(SF, init))
-    p = index.func(PARAMS, "Parameters.init_stored_food")
+    p = index.flat_func(PARAMS, "Parameters.compute_parameters_first_round", depth=3)
     from .core import Inliner as _Inl
     inl_sf = _Inl(p)
     calls_sf = [inl_sf.src(c_) for c_ in walk_no_nested(p) if isinstance(c_, ast.Call) and isinstance(c_.func, ast.Attribute) and c_.func.attr == "calculate_stored_food_to_use"]
